@@ -1,12 +1,14 @@
 #!/bin/sh
-# usage: tools/try_patch.sh <patch.diff> <pid> [<pid> ...]   -- applies the patch to /repo, runs quick checks, reverts.
+# usage: tools/try_patch.sh <patch.diff> <pid> [<pid> ...]
+# Applies the patch in a SCRATCH worktree of /repo (never in /repo itself: background runs use /repo), runs the quick checks
+# against it through VERIF_REPO, removes the worktree.
 patch="$1"; shift
-cd /repo || exit 2
-git diff --quiet || { echo "/repo not clean"; exit 2; }
-git apply "$patch" || { echo "patch does not apply"; exit 2; }
+wt=/tmp/trypatch_$$
+git -C /repo worktree add -q --detach "$wt" HEAD || exit 2
+( cd "$wt" && git apply "$patch" ) || { echo "patch does not apply"; git -C /repo worktree remove --force "$wt"; exit 2; }
 cd /verif
 for pid in "$@"; do
-  out=$(VERIF_NO_EVIDENCE=1 ./check "$pid" --tier "${TIER:-quick}" 2>&1); rc=$?
+  out=$(VERIF_REPO="$wt" VERIF_NO_EVIDENCE=1 VERIF_SELFTEST=0 ./check "$pid" --tier "${TIER:-quick}" 2>&1); rc=$?
   echo "== $pid rc=$rc"; echo "$out" | grep -E "^VIOLATION|clause:|KNOWN-FINDING|MACHINERY|tier=" | cut -c1-400 | head -12
 done
-git -C /repo checkout -- .
+git -C /repo worktree remove --force "$wt"
